@@ -3634,7 +3634,9 @@ class locked_index:
         try:
             f = SHA1Writer(self._file)
             write_index_dict(f, self._index._byname)
-        except BaseException:
-            self._file.abort()
-        else:
             f.close()
+        except BaseException:
+            # Also covers a failure while writing the checksum or closing:
+            # release the lock and report the error instead of hiding it.
+            self._file.abort()
+            raise
